@@ -5,6 +5,7 @@ import TcheranVerif.Model.San
 import TcheranVerif.Model.Time
 import TcheranVerif.Model.Search
 import TcheranVerif.Model.UciCtl
+import TcheranVerif.Model.UciMove
 /-!
 # Request handlers for the engine-level properties (mirror of `harness/src/cmds2.rs`)
 Each returns `(model answer, specification answer)`.
@@ -358,6 +359,12 @@ def ctlHandle (cmdsText : String) : String × String :=
   (s!"stuck={boolDigit stuck} states={n} readyok={count .isready} bestmove={count .goFinite + count .goInfinite} exits={boolDigit (cmds.contains .quit)}", "-")
 
 /-! ### C17 -/
+
+def ucimovesHandle (text : String) : String × String :=
+  match UciMove.parseMoves 600 text.toList with
+  | some (ms, rest) =>
+    (s!"ok [{" ".intercalate (ms.map fun m => String.ofList (UciMove.text m))}] rest=[{(String.ofList rest).replace "\t" "<TAB>"}]", "-")
+  | none => ("err", "-")
 
 /-- `UciCommand::Position`: `expect_matching` on the generated moves, then `make_move` -/
 def positionCmd (g : Game) (moves : List Move) : Option Game :=
